@@ -49,4 +49,4 @@ struct FaultRun
   std::string detail;
   wapi::OpOut o;
 };
-FaultRun run_faulted(bool is_decrypt, const bytes &file, const bytes &key, const EncCase &e, long n);
+FaultRun run_faulted(bool is_decrypt, const bytes &file, const bytes &key, const EncCase &e, long n, long read_fail_at = -1, bool read_fail_once = false);
